@@ -93,7 +93,7 @@ pub fn gen(ctx: &Ctx) {
     let mut out = Out::new(&ctx.dir, "printer");
     out.rule = "the four response entry points and write_request: status 100..999 with CR/LF-free reasons (incl. 200 with a custom reason), 0..4 user headers, one case in four with a header history (framing declared, then removed / replaced / reset), \
                 {nothing, content-length, transfer-encoding: chunked} declared, body lengths dense around 0, 2047/2048/2049, 8191/8192/8193 (thorough: 131071..131073, 300000), \
-                reader piece sizes {1-byte, small, 1000, 4096, whole}, writer acceptance patterns (every short count of the first write for small heads; random short writes), date on/off; chunk-size boundaries 15/16, 255/256, 4095/4096, 65535..65537, 131071..131073, 140000 as single chunks. \
+                reader piece sizes {1-byte, small, 1000, 4096, whole}, writer acceptance patterns (every short count of the first write for small heads; random short writes), date on/off; declared lengths below / above what the reader delivers around the 8 KiB limit; chunk-size boundaries 15/16, 255/256, 4095/4096, 65535..65537, 131071..131073, 140000 as single chunks. \
                 non-trivial = a non-empty body".into();
     let lens: Vec<usize> = if ctx.thorough { vec![0, 1, 2, 100, 2047, 2048, 2049, 5000, 8191, 8192, 8193, 9000, 20000, 131071, 131072, 131073, 300000] }
                            else { vec![0, 1, 2, 100, 2047, 2048, 2049, 5000, 8191, 8192, 8193, 9000, 20000] };
@@ -164,6 +164,23 @@ pub fn gen(ctx: &Ctx) {
             let case = format!("B 200 {} n [] {} {}", hex(b"OK"), hex(&body), a);
             let r = run(&case);
             out.emit(&case, &r, "B/first-write-sweep", true);
+        }
+    }
+    // a declared Content-Length that differs from what the reader delivers, on both sides of the 8 KiB probe limit:
+    // never more than the declared number of body bytes on the wire; a reader that ends early is an error above the limit
+    for len in [100usize, 8192, 8193, 9000, 20000, 70000] {
+        let body: Vec<u8> = (0..len).map(|i| b'a' + (i % 26) as u8).collect();
+        let mut ds: Vec<usize> = vec![len - 1, len + 1, len / 2];
+        if len > 8200 { ds.extend([8192, 8193, len - 100]); }
+        for d in ds {
+            for ep in ["R", "Q"] {
+                for ps in [len, 4096, 1000] {
+                    let pieces: Vec<String> = body.chunks(ps).map(hex).collect();
+                    let case = format!("{ep} 200 {} n [{}:{}] {} -", hex(b"OK"), hex(b"content-length"), hex(d.to_string().as_bytes()), pieces.join(","));
+                    let r = run(&case);
+                    out.emit(&case, &r, if d < len { "declared-short-of-reader" } else { "declared-beyond-reader" }, true);
+                }
+            }
         }
     }
     // chunk-size lines at every hex-digit boundary and around the 128 KiB chunk buffer: one chunk of exactly that size
